@@ -66,8 +66,11 @@ C13_Holds(cs) ==
 
 (* -------------------------- C16 / C07: dicts ---------------------------- *)
 \* key / value pools; texts are listed in byte order in KeyOrder so that the model can sort
-KeyPool == {"a", "ab", "a1", "1", "10", "9", "f1", "f2", "qx", "qy", "null"}
-ValPool == {"v1", "vq", "null"}
+KeyPool == {"a", "ab", "a1", "1", "10", "9", "f1", "f2", "qx", "qy", "null", "sk1", "sk2"}
+ValPool == {"v1", "vq", "vs", "null"}
+\* a key that is itself a composite literal with a Dict inside (struct-literal keys): the inner Dict is rendered while the
+\* outer first pass is under way
+StructKey(t, f, v) == Stmt(<<Id(t), Grp("values", <<Dict(<<Pair(Stmt(<<Id(f)>>), Stmt(<<LitT(v)>>))>>, <<1>>)>>)>>)
 KeyCode(k, i) ==
   CASE k = "a"    -> Stmt(<<Id("a")>>)
     [] k = "ab"   -> Stmt(<<Id("ab")>>)
@@ -80,15 +83,19 @@ KeyCode(k, i) ==
     [] k = "qx"   -> Qual("x/d", "K")
     [] k = "qy"   -> Qual("y/d", "K")
     [] k = "null" -> Stmt(<<NullT>>)
+    [] k = "sk1"  -> StructKey("Circle", "R", "1")
+    [] k = "sk2"  -> StructKey("Square", "A", "2")
 \* the value identifies its key (so that a value attached to another pair's key is visible)
 KeyNo(k) == CASE k = "a" -> "710" [] k = "ab" -> "711" [] k = "a1" -> "718" [] k = "10" -> "719" [] k = "9" -> "720" [] k = "1" -> "712" [] k = "f1" -> "713" [] k = "f2" -> "714"
-              [] k = "qx" -> "715" [] k = "qy" -> "716" [] k = "null" -> "717"
+              [] k = "qx" -> "715" [] k = "qy" -> "716" [] k = "null" -> "717" [] k = "sk1" -> "721" [] k = "sk2" -> "722"
+StrVal(k) == "\"http://e.com/*" \o KeyNo(k) \o "*/,}:{\""
 ValCode(v, k) ==
   CASE v = "v1"   -> Stmt(<<LitT(KeyNo(k))>>)
     [] v = "vq"   -> Qual("x/d", "V" \o KeyNo(k))
+    [] v = "vs"   -> Stmt(<<LitT(StrVal(k))>>)          \* a string literal full of structural characters
     [] v = "null" -> Stmt(<<NullT>>)
 \* byte order of every key text that can occur ("1" < "a" < "ab" < "d.K" < "d1.K" < "f ()"; statement items are joined by one blank)
-KeyOrder == <<"1", "10", "9", "a", "a1", "ab", "d.K", "d1.K", "f ()", "zz.K">>
+KeyOrder == <<"1", "10", "9", "Circle {R:1}", "Square {A:2}", "a", "a1", "ab", "d.K", "d1.K", "f ()", "zz.K">>
 Rank(t) == CHOOSE i \in DOMAIN KeyOrder : KeyOrder[i] = t
 \* a dict case: pairs (sequence of <<key, val>> names, first-pass visiting order = sequence order)
 DictTree(pairs, order) == Stmt(<<Kw("var"), Id("_"), Op("="), Id("T"), Grp("values", <<Dict([i \in DOMAIN pairs |-> Pair(KeyCode(pairs[i][1], i), ValCode(pairs[i][2], pairs[i][1]))], order)>>)>>)
@@ -121,8 +128,9 @@ C16_Holds(cs) ==
   LET pv == PiecesA(cs.alias, cs.tree)
       colons == Count(pv, ":")
       liveIdx == {i \in DOMAIN cs.pairs : cs.pairs[i][1] # "null" /\ cs.pairs[i][2] # "null"}
-      valText(i) == IF cs.pairs[i][2] = "v1" THEN KeyNo(cs.pairs[i][1]) ELSE "V" \o KeyNo(cs.pairs[i][1])
-  IN /\ colons = cs.live                                       \* one "key: value" per live pair
+      valText(i) == IF cs.pairs[i][2] = "v1" THEN KeyNo(cs.pairs[i][1]) ELSE IF cs.pairs[i][2] = "vs" THEN StrVal(cs.pairs[i][1]) ELSE "V" \o KeyNo(cs.pairs[i][1])
+      nested == Cardinality({i \in liveIdx : cs.pairs[i][1] \in {"sk1", "sk2"}})     \* a live struct-literal key has a colon of its own
+  IN /\ colons = cs.live + nested                              \* one "key: value" per live pair
      /\ \A i \in liveIdx : Count(pv, valText(i)) = 1            \* every live pair exactly once (its value names its key)
      /\ (cs.live > 1) = (\E i \in DOMAIN pv : pv[i].c = "nl")   \* several pairs: one per line; one pair: inline
      \* ordered by the rendered text of the keys (under THIS File's settings)
